@@ -312,9 +312,14 @@ class Output(IOutput, Loggable):
         if isinstance(where, str):
             self.logger.profile("reading data from file %s", where)
             data = np.load(where, allow_pickle=True)
-            return tools.UNITS.Quantity(data, self.info.units)
+            return tools.UNITS.Quantity(data, self._packed_units)
 
         return where
+
+    @property
+    def _packed_units(self):
+        """Units of the data handled by :meth:`._pack` and :meth:`._unpack`."""
+        return self.info.units
 
     def _clear_data(self, time, target):
         self._connected_inputs[target] = time
